@@ -989,9 +989,10 @@ class StubsStringGenerator:
                 example_text = f"{indentations} * @example\n{indentations} * pipeline example {{\n"
                 for example_part in example.split("\n"):
                     if example_part.startswith(">>>"):
-                        example_text += f"{indentations} *     {example_part.replace('>>>', '//')}\n"
+                        # Only the prompt is replaced, the code can contain the same characters
+                        example_text += f"{indentations} *     {example_part.replace('>>>', '//', 1)}\n"
                     elif example_part.startswith("..."):
-                        example_text += f"{indentations} *     {example_part.replace('...', '//')}\n"
+                        example_text += f"{indentations} *     {example_part.replace('...', '//', 1)}\n"
                 example_text += f"{indentations} * }}\n"
                 example_docstrings.append(example_text)
 
